@@ -98,6 +98,8 @@ class SmtLibCommand(namedtuple('SmtLibCommand', ['name', 'args'])):
                 if option_name == ":weight":
                     outstream.write(" %s " % option_name)
                     printer.printer(value)
+                elif option_name == ":id":
+                    outstream.write(" %s %s" % (option_name, quote(value)))
                 else:
                     outstream.write(" %s %s" % (option_name, value))
             outstream.write(")")
@@ -114,7 +116,9 @@ class SmtLibCommand(namedtuple('SmtLibCommand', ['name', 'args'])):
             printer.printer(self.args[0])
             for a in self.args[1]:
                 option_name, value = a
-                if ":signed" != option_name:
+                if ":id" == option_name:
+                    outstream.write(" %s %s" % (option_name, quote(value)))
+                elif ":signed" != option_name:
                     outstream.write(" %s %s" % (option_name, value))
                 elif value:
                     outstream.write(" %s " % option_name)
@@ -129,6 +133,8 @@ class SmtLibCommand(namedtuple('SmtLibCommand', ['name', 'args'])):
                 if option_name == ":signed":
                     if value:
                         outstream.write(" %s" % option_name)
+                elif option_name == ":id":
+                    outstream.write(" %s %s" % (option_name, quote(value)))
                 else:
                     outstream.write(" %s %s" % (option_name, value))
             outstream.write(")")
